@@ -125,21 +125,24 @@ prop("C08", ["PepitVerif/Props/C08.lean", "PepitVerif/Props/C08Gen.lean", "Pepit
      direct=[oracle("c08_steps", 300, 5000)],
      assumptions=["real_sound is proved for the proximal, linear-optimisation, inexact-gradient, exact line-search (smooth functions) and Bregman gradient steps; Bregman proximal, ε-subgradient and inexact-prox real sides are not formalised"])
 
-prop("C09", ["PepitVerif/Props/C09.lean", "PepitVerif/Math/Certificate.lean", "PepitVerif/Props/C10.lean", "PepitVerif/Props/C08Gen.lean"], only=[r"C09\.", r"C08Gen\.", "cert_sound", "trace_mul_nonneg", "gd_no_run_beats_bound", "gd_contraction_n", "gd_contraction_upper", "subgradient_bound", "subg_telescope", "pg_contraction", "prox_nonexpansive"],
+prop("C09", ["PepitVerif/Props/C09.lean", "PepitVerif/Math/Certificate.lean", "PepitVerif/Props/C10.lean", "PepitVerif/Props/C08Gen.lean", "PepitVerif/Props/C09Methods.lean"], only=[r"C09\.", r"C09M\.", r"C08Gen\.", "cert_sound", "trace_mul_nonneg", "gd_no_run_beats_bound", "gd_contraction_n", "gd_contraction_upper", "subgradient_bound", "subg_telescope", "pg_contraction", "prox_nonexpansive"],
      streams=[stream("steps (recorded relations of the steps the examples are built from)", "steps", 100, 2000, offset=61),
               stream("cls (class constraints the examples rely on)", "cls", 100, 2000, offset=67),
               stream("collect+cvx (what the pipeline sends and records as sent; the real cvxpy wrapper)", "collect", 80, 1500, env={"PEPV_TEE": "1", "STUBS": "1"}, offset=89),
               stream("resolve (returned dual value rebuilt from the recorded list of sent constraints)", "resolve", 80, 1500, offset=97),
-              stream("examples (REAL programs: the operations every shipped example performs, traced at run time over 386 parameter tuples — the model every example hands to the solver is the one the Lean pipeline model builds from the same operations; example run = replay on the library = Lean model)", "examples", 64, 386, offset=173)],
+              stream("examples (REAL programs: the operations every shipped example performs, traced at run time over 386 parameter tuples — the model every example hands to the solver is the one the Lean pipeline model builds from the same operations; example run = replay on the library = Lean model)", "examples", 64, 386, offset=173),
+              stream("methods (the example scripts whose whole user-level model is specified in Lean, Model/Methods.lean — gradient-descent contraction, subgradient method — at parameter values drawn over the documented ranges: the objects the REAL script builds = the Lean specification the C09Methods theorems are about)", "methods", 24, 400, offset=191)],
      direct=[oracle("c09_runs", 33, 440), oracle("c03_members", 260, 2600)],
+     
      trusted=["independent NumPy implementations of 10 method families (harness/oracles5.py), transcribed from the documented algorithms"],
      assumptions=["that each example script implements the method its docstring names is not visible to Lean: sampled by real runs only",
                   "solver accuracy (CLARABEL ~1e-8) enters the comparison with tolerance 1e-5 relative"])
 
-prop("C10", ["PepitVerif/Props/C10.lean", "PepitVerif/Math/ClassForms.lean"],
+prop("C10", ["PepitVerif/Props/C10.lean", "PepitVerif/Props/C09Methods.lean", "PepitVerif/Math/ClassForms.lean"],
      streams=[stream("tree (expression algebra the examples are written in)", "tree", 100, 1000, offset=71),
               stream("cls (class constraints the examples rely on, all parameter regimes)", "cls", 100, 1500, offset=101),
-              stream("examples (REAL programs: the operations every shipped example performs, traced at run time over 386 parameter tuples — suite tuples and neighbouring tuples of every example; example run = replay on the library = Lean model)", "examples", 64, 386, offset=179)],
+              stream("examples (REAL programs: the operations every shipped example performs, traced at run time over 386 parameter tuples — suite tuples and neighbouring tuples of every example; example run = replay on the library = Lean model)", "examples", 64, 386, offset=179),
+              stream("methods (the example scripts whose whole user-level model is specified in Lean, Model/Methods.lean — gradient-descent contraction, subgradient method — at parameter values drawn over the documented ranges: the objects the REAL script builds = the Lean specification the C09Methods theorems are about)", "methods", 24, 400, offset=193)],
      direct=[oracle("c10_examples", 40, 103), oracle("c10_refs", 57, 600), oracle("c10_sweeps", 19, 190), oracle("c10_equivalent", 12, 12), oracle("c10_neighbours", 300, 300)],
      trusted=["hand transcription of 19 published closed forms and their validity ranges (lean/PepitModel/Ref.lean), validated against the pinned tree",
               "frozen reference tables harness/ref_table.json and harness/ref_neighbours.json (claim tight/upper per example at the suite tuples and at neighbouring tuples: other iteration counts, scaled parameters) generated from the pinned tree"],
